@@ -59,7 +59,7 @@ def rnd_vector(rng, fn):
 def gen_cases(tier, seed):
     rng = random.Random(seed * 122949829 + 14)
     cases = []
-    n = 5000 if tier == 'quick' else 80000
+    n = 5000 if tier == 'quick' else 250000
     for _ in range(n):
         fn = rng.choice(['make', 'make', 'make', 'make_qr', 'make_micro', 'make_sequence'])
         cls = rng.choice(['digits', 'alnum', 'ascii', 'latin1', 'kana', 'utf8', 'cyr', 'sjis_bytes', 'lead_trail', 'hanzi',
